@@ -19,7 +19,6 @@ import (
 	"fmt"
 	"os"
 	"path/filepath"
-	"sort"
 	"strings"
 	"sync"
 	"time"
@@ -101,12 +100,30 @@ func main() {
 	evaluations := 0
 	for _, o := range outs {
 		tag := fmt.Sprintf("%s case %d", o.job.mode, o.job.idx)
+		for _, rr := range o.races {
+			raceSigs[rr.Sig]++
+			if rr.Deciding {
+				tot["races_deciding"]++
+				r.Report("C07:data-race:"+rr.Field,
+					"the race detector reports two sharers accessing the state that the shared-variable lock protects without synchronisation: "+rr.Sig,
+					map[string]any{"case": o.c, "mode": "race", "race": rr, "oracle_key": "race"})
+			} else {
+				tot["races_observed_not_deciding"]++
+				if len(raceObs) < 10 && raceSigs[rr.Sig] == 1 {
+					raceObs = append(raceObs, rr)
+				}
+			}
+		}
 		if o.res == nil {
 			r.Inconclusive(tag + ": " + o.failed)
 			continue
 		}
 		evaluations++
 		res := o.res
+		if os.Getenv("C07_VERBOSE") != "" {
+			fmt.Printf("%s: ctx=%d vars=%d to=%v secs=%d committed=%d aborted=%v waits=%d wall=%dms disrupt=%s heavy=%v\n", tag, o.c.NCtx, len(o.c.Vars), toList(o.c), o.c.Sections,
+				res.Stats.Committed, res.Stats.Aborted, res.LockWaits, res.WallMs, o.c.Disrupt, o.c.Heavy)
+		}
 		for _, v := range res.Violations {
 			w := map[string]any{"case": o.c, "mode": o.job.mode, "violation": v.Witness, "oracle_key": v.Key}
 			if res.History != nil {
@@ -127,20 +144,6 @@ func main() {
 		if !res.Complete {
 			tot["incomplete_cases"]++
 		}
-		for _, rr := range o.races {
-			raceSigs[rr.Sig]++
-			if rr.Deciding {
-				tot["races_deciding"]++
-				r.Report("C07:data-race:"+rr.Field,
-					"the race detector reports two sharers accessing the state that the shared-variable lock protects without synchronisation: "+rr.Sig,
-					map[string]any{"case": o.c, "mode": "race", "race": rr, "oracle_key": "race"})
-			} else {
-				tot["races_observed_not_deciding"]++
-				if len(raceObs) < 10 && raceSigs[rr.Sig] == 1 {
-					raceObs = append(raceObs, rr)
-				}
-			}
-		}
 		tot[o.job.mode+"_cases"]++
 		tot["sections_committed"] += res.Stats.Committed
 		tot["cross_ctx_edges"] += res.Stats.CrossCtxEdges
@@ -153,6 +156,7 @@ func main() {
 		tot["lock_acquisitions_h8"] += res.LockWaits
 		tot["lock_timeouts_h8"] += res.Timeouts
 		tot["monitor_ticks"] += res.Ticks
+		tot["timer_stall_events"] += res.TimerStalls
 		if res.Stats.MaxListLen > tot["max_list_len"] {
 			tot["max_list_len"] = res.Stats.MaxListLen
 		}
@@ -181,7 +185,7 @@ func main() {
 	extra := map[string]any{
 		"totals": tot, "edges": edges, "aborted_attempts": aborted, "wrappings": wraps, "variable_kinds": kinds,
 		"lock_timeouts_ms": intKeys(timeouts), "contexts_per_case": intKeys(nctx), "managers_per_case": intKeys(nmgr),
-		"races_observed": len(raceSigs), "race_observations": raceObs, "deadlock_criterion_ticks": deadlockTicks,
+		"races_observed": len(raceSigs), "race_observations": raceObs, "deadlock_criterion_pre_rounds": preRounds,
 	}
 	floor := r.Pick(10, 100)
 	r.Finish(common.Coverage{
@@ -195,9 +199,17 @@ func main() {
 		"held on the executions observed: configurations and plans are PRNG-generated (2-8 contexts, 1-6 managers, timeouts 1-50 ms); interleavings are whatever the Go scheduler, the perturbation and the code's own timeouts produced",
 		"the H1 commit-point hook runs while the section still holds every lock it took; its sequence numbers are taken under one harness mutex",
 		"real-time edges use a sequence number taken before the attempt's first shared access and one taken after every Commit returned (a subset of true real-time precedence)",
-		"deadlock is decided only by the logical criterion over H8 events (every running sharer inside the same tryEnsureLock call, no begin/commit/abort event, across 20 returns of a canary that waits exactly like acquireWithTimeout); watchdog expiries and stalls are inconclusive",
+		"deadlock is decided only logically: H8 events show every running sharer inside the same tryEnsureLock call, each waiting for a variable held by another such sharer, unchanged across 5 rounds of canaries that wait exactly like acquireWithTimeout, AND the goroutine states show every one of them blocked in a channel operation without a timeout alternative; sharers late in the timed select (timer/scheduler stalls of the machine), watchdog expiries and stalls are inconclusive",
 		"race batches use no H8 callbacks and no cross-context harness synchronisation; only races whose two accesses are on LocalArchetypeResource.value/oldValue or localShared.hasLock decide",
 	})
+}
+
+func toList(c Case) []int {
+	var out []int
+	for _, v := range c.Vars {
+		out = append(out, v.TimeoutMs)
+	}
+	return out
 }
 
 func intKeys(m map[int]int) map[string]int {
@@ -227,7 +239,7 @@ func runJob(r *common.Run, j job, scratch, raceBin string) jobOut {
 	if o.c.Disrupt != "" {
 		env = append(env, "PGO_DISRUPT_CONCURRENCY="+o.c.Disrupt)
 	}
-	o.child = common.RunChild(exe, "case", dir, env, 240*time.Second)
+	o.child = common.RunChild(exe, "case", dir, env, 150*time.Second)
 	if j.mode == "race" {
 		o.races = parseRaceLogs(dir)
 	}
@@ -285,14 +297,32 @@ func doReplay(r *common.Run) {
 		r.Report(key, desc, w)
 	}
 	if d := f.Witness.Deadlock; d != nil && strings.HasPrefix(f.Key, "C07:deadlock") {
+		// re-evaluate the logical criterion on the stored goroutine dump and H8 snapshot
 		all := len(d.Sharers) > 0
 		for _, s := range d.Sharers {
 			if v, ok := s["parked_in_tryEnsureLock_call"].(float64); !ok || v == 0 {
 				all = false
 			}
 		}
-		if all && d.Ticks >= deadlockTicks {
-			report(f.Key, fmt.Sprintf("replayed: every running sharer parked in tryEnsureLock across %d timeout periods", d.Ticks), map[string]any{"deadlock": d})
+		blocked, timed := 0, 0
+		for _, g := range parseGoroutines(d.Goroutines) {
+			isSharer := false
+			for _, fr := range g.frames {
+				if strings.Contains(fr, "distsys.(*MPCalContext).Run") {
+					isSharer = true
+				}
+			}
+			if !isSharer || !inLocalShared(g.frames, 4) {
+				continue
+			}
+			if untimedBlock(g.state) {
+				blocked++
+			} else if g.state == "select" {
+				timed++
+			}
+		}
+		if all && blocked == len(d.Sharers) && timed == 0 {
+			report(f.Key, fmt.Sprintf("replayed: all %d running sharers blocked in tryEnsureLock without a timeout alternative, in a wait-for cycle", blocked), map[string]any{"deadlock": d})
 		}
 	}
 	if rr := f.Witness.Race; rr != nil {
@@ -311,9 +341,10 @@ func doReplay(r *common.Run) {
 			}
 		}
 	}
-	var ks []string
-	ks = append(ks, f.Key)
-	sort.Strings(ks)
+	if n == 0 && f.Witness.Violation != nil && (strings.HasPrefix(f.Key, "C07:sharer-run-failed") || strings.HasPrefix(f.Key, "C07:lock-held-by-no-section")) {
+		// nothing to recompute: the witness is the observation itself
+		report(f.Key, "replayed (stored observation)", map[string]any{"violation": f.Witness.Violation})
+	}
 	fmt.Printf("replay of %s: stored key %s, oracle reported %d violation(s)\n", r.Replay, f.Key, n)
 	r.Finish(common.Coverage{Evaluations: 1, DistinctNontrivial: 1, Rule: "replay"}, nil)
 }
